@@ -232,18 +232,19 @@ def _concrete(args):
 
 def replay_ranges(**args):
     """Native replay against the real ValueMapping through its public constructor."""
-    import pywbem_mock
     typ = args['type']
     vmap = _concrete(args)
     n = len(vmap)
     vals = ['v%d' % i for i in range(n)]
     if args.get('empty_first'):
         vals[0] = ''
-    conn = pywbem_mock.FakedWBEMConnection()
     cls = pywbem.CIMClass('C', properties=[CIMProperty('P', None, type=typ, qualifiers=[
         CIMQualifier('ValueMap', vmap, type='string'), CIMQualifier('Values', vals, type='string')])])
-    conn.add_cimobjects([pywbem.CIMQualifierDeclaration('ValueMap', 'string', is_array=True, scopes={'ANY': True}),
-                         pywbem.CIMQualifierDeclaration('Values', 'string', is_array=True, scopes={'ANY': True}), cls])
+
+    class conn:                      # for_property() only needs GetClass()
+        @staticmethod
+        def GetClass(*a, **k):
+            return cls
     v = args['v']
     tmin, tmax = LIMITS[typ]
     # reference resolution, concrete
